@@ -185,7 +185,8 @@ def run(tier, seed, replay=None):
             ("classes", lambda r: gen.gen_class_program(r)), ("optional", lambda r: gen.gen_opt_program(r, refs=False)),
             ("match3", lambda r: gen.gen_match_program(r, npasses=3, size="small")),
             ("features", lambda r: gen.add_feature_tests(r, gen.gen_match_program(r, size="small") if r.random() < 0.5 else gen.gen_expr_program(r))),
-            ("positioning", lambda r: gen.gen_pos_program(r))]
+            ("positioning", lambda r: gen.gen_pos_program(r)),
+            ("attachment", lambda r: gen.gen_attach_program(r))]
     per = 8 if tier == "quick" else 80
     ntext = 40 if tier == "quick" else 120
     for fi, (fname, mk) in enumerate(fams):
@@ -207,16 +208,16 @@ def run(tier, seed, replay=None):
             inv = {v: k for k, v in prog.cmap.items()}
             texts = [t for t in texts[:ntext] if all(g in inv for g in t)]
             fvals = [((i * 7) % 3, (i * 5) % 2) for i in range(len(texts))] if fname == "features" else None
-            lines = ["font %s/out.ttf" % r["dir"], "ir %s/p.ir.json" % r["dir"]] + (["expand"] if fname == "optional" else []) + (["c01"] if fname == "positioning" else []) + \
+            lines = ["font %s/out.ttf" % r["dir"], "ir %s/p.ir.json" % r["dir"]] + (["expand"] if fname == "optional" else []) + (["c01"] if fname in ("positioning", "attachment") else []) + \
                 [("shapef %d,%d " % fvals[i] if fvals else "shape ") + " ".join(map(str, t)) for i, t in enumerate(texts)]
             outs = common.run_grcv(lines)
             k = 2
             problems = []
-            if fname in ("optional", "positioning"):
+            if fname in ("optional", "positioning", "attachment"):
                 k0 = k
                 while outs[k] != "done":
                     k += 1
-                if fname == "positioning":
+                if fname in ("positioning", "attachment"):
                     problems += [l for l in outs[k0:k] if not l.startswith("ok ")][:3]
                     for l in outs[k0:k]:
                         if l.startswith("ok "):
@@ -242,7 +243,7 @@ def run(tier, seed, replay=None):
                         problems.append("text %s: libgraphite2 renders glyphs %s, the rules as written give %s" % (t, [x[0] for x in got], [x[0] for x in mine]))
                     elif [x[3] for x in got] != [x[3] for x in mine]:
                         problems.append("text %s: user attributes %s, the rules as written give %s" % (t, [x[3] for x in got], [x[3] for x in mine]))
-                    elif fname == "positioning" and [(round(x["x"]), round(x["y"]), round(x["adv"])) for x in seg] != [(x[5], x[6], x[7]) for x in mine]:
+                    elif fname in ("positioning", "attachment") and [(round(x["x"]), round(x["y"]), round(x["adv"])) for x in seg] != [(x[5], x[6], x[7]) for x in mine]:
                         problems.append("text %s: positions (x, y, advance) %s, the rules as written give %s" % (
                             t, [(round(x["x"]), round(x["y"]), round(x["adv"])) for x in seg], [(x[5], x[6], x[7]) for x in mine]))
                     elif all(x[4] for x in mine) and [x[1:3] for x in got] != [x[1:3] for x in mine]:
